@@ -568,6 +568,178 @@ Definition buf_split (ok_arr : bool) (okp : nat -> bool) (b : cbuf) (delims : li
     do l <- buf_len b;
     buf_split_loop (S (S (Z.to_nat l))) okp b delims flags max_sections true [].
 
+(* ---- which allocation request of an ares_buf_split call belongs to which piece ----
+   Request 0 is ares_array_create.  Every piece that is KEPT then asks once for its ares_buf_t
+   (ares_buf_create / ares_buf_create_const) and ares_array_insertdata_last asks once more
+   when the array has to grow (ares_array_set_size rounds cnt + 1 up to a power of two, at least
+   ARES__ARRAY_MIN): for piece 0 and for pieces ARES__ARRAY_MIN, 2 * ARES__ARRAY_MIN, ... *)
+Definition buf_split_piece_grows (i : Z) : bool :=
+  (i =? 0) || ((ARES__ARRAY_MIN <=? i) && (i =? 2 ^ Z.log2 i)).
+Definition buf_split_piece_reqs (i : Z) : Z := if buf_split_piece_grows i then 2 else 1.
+(* the piece that request [n] belongs to, [n] counted from the first request of piece [i] *)
+Fixpoint buf_split_req_piece (fuel : nat) (i n : Z) : Z :=
+  match fuel with
+  | O => i
+  | S f => if n <? buf_split_piece_reqs i then i else buf_split_req_piece f (i + 1) (n - buf_split_piece_reqs i)
+  end.
+(* ares_buf_split when exactly the n-th allocation request of the call (from 0) is refused *)
+Definition buf_split_fail_okp (n : Z) (i : nat) : bool :=
+  negb (Z.of_nat i =? buf_split_req_piece (Z.to_nat n) 0 (n - 1)).
+Definition buf_split_fail_at (n : Z) (b : cbuf) (delims : list Z) (flags max_sections : Z)
+  : outcome (Z * cbuf * list (list Z)) :=
+  buf_split (negb (n =? 0)) (buf_split_fail_okp n) b delims flags max_sections.
+
+(* ---- ares_buf_append_num_dec / ares_buf_append_num_hex ---- *)
+(* ares_count_digits / ares_count_hexdigits (util/ares_math.c):
+   for (digits = 0; n > 0; digits++) n /= base;  if (digits == 0) digits = 1; *)
+Fixpoint buf_count_digits_loop (fuel : nat) (base n digits : Z) : outcome Z :=
+  match fuel with
+  | O => Err OutOfFuel
+  | S f => if n >? 0 then buf_count_digits_loop f base (n / base) (digits + 1) else Ok digits
+  end.
+Definition buf_count_digits (base n : Z) : outcome Z :=
+  do d <- buf_count_digits_loop 65 base n 0; Ok (if d =? 0 then 1 else d).
+
+(* ares_pow (util/ares_math.c): square and multiply in size_t arithmetic (wraps) *)
+Fixpoint buf_pow_loop (fuel : nat) (x y res : Z) : outcome Z :=
+  match fuel with
+  | O => Err OutOfFuel
+  | S f => if y >? 0
+           then buf_pow_loop f (buf_w64 (x * x)) (Z.shiftr y 1)
+                             (if negb (Z.land y 1 =? 0) then buf_w64 (res * x) else res)
+           else Ok res
+  end.
+Definition buf_pow (x y : Z) : outcome Z := buf_pow_loop 65 x y 1.
+
+(* '0' + (unsigned char)digit, passed as unsigned char *)
+Definition buf_dec_char (digit : Z) : Z := Z.land (48 + Z.land digit 255) 255.
+(* hexbytes[digit] with hexbytes[] = "0123456789ABCDEF" (17 bytes with the terminator) *)
+Definition buf_hexbytes : list Z := [48; 49; 50; 51; 52; 53; 54; 55; 56; 57; 65; 66; 67; 68; 69; 70; 0].
+Definition buf_hex_char (digit : Z) : outcome Z :=
+  if (0 <=? digit) && (digit <? 17) then Ok (nth (Z.to_nat digit) buf_hexbytes 0) else UB OutOfBounds.
+
+(* the digit at position i (1 = least significant), as computed by the code with
+   fixes/C19-buf-append-num-width.patch: positions above the most significant digit are 0 *)
+Definition buf_dec_digit (num ndigits i : Z) : outcome Z :=
+  if i <=? ndigits
+  then do p <- buf_pow 10 (buf_w64 (i - 1));
+       if p =? 0 then UB DivZero else Ok ((num / p) mod 10)
+  else Ok 0.
+Definition buf_hex_digit (num ndigits i : Z) : outcome Z :=
+  if i <=? ndigits
+  then let sh := buf_w64 (buf_w64 (i - 1) * 4) in
+       if sh >=? 64 then UB ShiftTooWide else Ok (Z.land (Z.shiftr num sh) 15)
+  else Ok 0.
+
+(* for (i = len; i > 0; i--) { ...; status = ares_buf_append_byte(buf, ch); if (status != ARES_SUCCESS) return status; } *)
+Fixpoint buf_num_loop (digit_char : Z -> outcome Z) (ok : bool) (b : cbuf) (i : nat) : outcome (Z * cbuf) :=
+  match i with
+  | O => Ok (ARES_SUCCESS, b)
+  | S i' =>
+    do ch <- digit_char (Z.of_nat i);
+    do r <- buf_append_byte ok b ch;
+    if negb (fst r =? ARES_SUCCESS) then Ok r else buf_num_loop digit_char ok (snd r) i'
+  end.
+
+(* ares_buf_append_num_dec with fixes/C19-buf-append-num-atomic.patch (the room for all digits
+   is reserved by ONE ares_buf_ensure_space call before the first digit is appended) and
+   fixes/C19-buf-append-num-width.patch *)
+Definition buf_append_num_dec (ok : bool) (b : cbuf) (num len : Z) : outcome (Z * cbuf) :=
+  do nd <- buf_count_digits 10 num;
+  let len := if len =? 0 then nd else len in
+  do r <- buf_ensure_space ok b len;
+  if negb (fst r =? ARES_SUCCESS) then Ok r
+  else buf_num_loop (fun i => do d <- buf_dec_digit num nd i; Ok (buf_dec_char d)) ok (snd r) (Z.to_nat len).
+
+Definition buf_append_num_hex (ok : bool) (b : cbuf) (num len : Z) : outcome (Z * cbuf) :=
+  do nd <- buf_count_digits 16 num;
+  let len := if len =? 0 then nd else len in
+  do r <- buf_ensure_space ok b len;
+  if negb (fst r =? ARES_SUCCESS) then Ok r
+  else buf_num_loop (fun i => do d <- buf_hex_digit num nd i; buf_hex_char d) ok (snd r) (Z.to_nat len).
+
+(* the code BEFORE the two patches: mod = ares_pow(10, len) wraps around for len >= 20, the
+   digits are appended one ares_buf_append_byte at a time without a reservation; [okd k] = the
+   allocator's answer should the append of the k-th digit (from 0) ask *)
+Fixpoint buf_num_dec_unfixed_loop (okd : nat -> bool) (b : cbuf) (num modv : Z) (k i : nat) : outcome (Z * cbuf) :=
+  match i with
+  | O => Ok (ARES_SUCCESS, b)
+  | S i' =>
+    if modv =? 0 then UB DivZero
+    else
+      let digit := num mod modv in
+      let modv := modv / 10 in
+      if modv =? 0 then Ok (ARES_EFORMERR, b)
+      else
+        do r <- buf_append_byte (okd k) b (buf_dec_char (digit / modv));
+        if negb (fst r =? ARES_SUCCESS) then Ok r else buf_num_dec_unfixed_loop okd (snd r) num modv (S k) i'
+  end.
+Definition buf_append_num_dec_unfixed (okd : nat -> bool) (b : cbuf) (num len : Z) : outcome (Z * cbuf) :=
+  do nd <- buf_count_digits 10 num;
+  let len := if len =? 0 then nd else len in
+  do m <- buf_pow 10 len;
+  buf_num_dec_unfixed_loop okd b num m 0 (Z.to_nat len).
+
+Fixpoint buf_num_hex_unfixed_loop (okd : nat -> bool) (b : cbuf) (num : Z) (k i : nat) : outcome (Z * cbuf) :=
+  match i with
+  | O => Ok (ARES_SUCCESS, b)
+  | S i' =>
+    let sh := buf_w64 (buf_w64 (Z.of_nat i - 1) * 4) in
+    if sh >=? 64 then UB ShiftTooWide
+    else
+      do ch <- buf_hex_char (Z.land (Z.shiftr num sh) 15);
+      do r <- buf_append_byte (okd k) b ch;
+      if negb (fst r =? ARES_SUCCESS) then Ok r else buf_num_hex_unfixed_loop okd (snd r) num (S k) i'
+  end.
+Definition buf_append_num_hex_unfixed (okd : nat -> bool) (b : cbuf) (num len : Z) : outcome (Z * cbuf) :=
+  do nd <- buf_count_digits 16 num;
+  let len := if len =? 0 then nd else len in
+  buf_num_hex_unfixed_loop okd b num 0 (Z.to_nat len).
+
+(* ---- ares_buf_parse_dns_binstr / ares_buf_parse_dns_str ----
+   static ares_buf_parse_dns_binstr_int(buf, remaining_len, bin, bin_len, validate_printable)
+   with fixes/C19-buf-parse-binstr-enomem.patch.  In this tree the function reads ONE
+   length-prefixed character-string (no loop over remaining_len).  [want] = (bin != NULL);
+   [ok1] = ares_buf_create of the temporary buffer, [ok2] = the one later request (growth of the
+   temporary buffer; for an empty string the byte of the terminator in ares_buf_finish_str).
+   Result: status, the buffer, Some (string ++ [0]) when a string is handed back. *)
+Definition buf_parse_dns_binstr_int (ok1 ok2 : bool) (b : cbuf) (remaining_len : Z) (want validate : bool)
+  : outcome (Z * cbuf * option (list Z)) :=
+  if remaining_len =? 0 then Ok (ARES_EBADRESP, b, None)
+  else
+    match buf_create ok1 with
+    | None => Ok (ARES_ENOMEM, b, None)
+    | Some binbuf =>
+      do f <- buf_fetch_bytes b 1;                                  (* the length byte *)
+      if negb (fst (fst f) =? ARES_SUCCESS) then Ok (fst (fst f), snd (fst f), None)
+      else
+        match snd f with
+        | [len] =>
+          let b1 := snd (fst f) in
+          let remaining_len := buf_w64 (remaining_len - 1) in
+          if len >? remaining_len then Ok (ARES_EBADRESP, b1, None)
+          else
+            do r <- (if len =? 0 then Ok (ARES_SUCCESS, b1, binbuf)
+                     else
+                       do bl <- buf_len b1;
+                       do bad <- (if validate && (bl >=? len)
+                                  then do data <- buf_read b1 (cb_off b1) len;       (* ares_str_isprint *)
+                                       Ok (negb (forallb buf_isprint data))
+                                  else Ok false);
+                       if bad then Ok (ARES_EBADSTR, b1, binbuf)
+                       else if want then buf_fetch_bytes_into_buf ok2 b1 binbuf len
+                            else do c <- buf_consume b1 len; Ok (fst c, snd c, binbuf));
+            if negb (fst (fst r) =? ARES_SUCCESS) || negb want then Ok (fst (fst r), snd (fst r), None)
+            else
+              do fz <- buf_finish_str ok2 (snd r);
+              match fst fz with
+              | None => Ok (ARES_ENOMEM, snd (fst r), None)        (* the temporary buffer is destroyed *)
+              | Some bytes => Ok (ARES_SUCCESS, snd (fst r), Some bytes)
+              end
+        | _ => UB OutOfBounds
+        end
+    end.
+
 (* =======================================================================================
    Operation sequences: one operation of the C API per [buf_op]; [buf_step] runs it on the
    model and reports what the C driver prints: status / return value, numeric outputs, byte
@@ -608,7 +780,11 @@ Inductive buf_op :=
 | BopFinishBin (ok : bool)
 | BopFinishStr (ok : bool)
 | BopNew (ok : bool)                          (* replace the buffer by ares_buf_create() *)
-| BopNewConst (ok : bool) (bytes : list Z).   (* ... by ares_buf_create_const(bytes) *)
+| BopNewConst (ok : bool) (bytes : list Z)    (* ... by ares_buf_create_const(bytes) *)
+| BopAppendNumDec (ok : bool) (num len : Z)
+| BopAppendNumHex (ok : bool) (num len : Z)
+| BopParseBinstr (ok1 ok2 : bool) (remaining_len : Z) (want validate : bool)
+| BopSplitFailAt (n : Z) (delims : list Z) (flags max_sections : Z).  (* the n-th request is refused *)
 
 Record bobs := mkBufObs { bo_st : Z; bo_vals : list Z; bo_bytes : list (list Z) }.
 
@@ -699,6 +875,17 @@ Definition buf_step (b : cbuf) (op : buf_op) : outcome (bobs * cbuf) :=
     | None => Ok (mkBufObs 0 [] [], b)
     | Some nb => Ok (mkBufObs 1 [] [], nb)
     end
+  | BopAppendNumDec ok num len => do r <- buf_append_num_dec ok b num len; Ok (mkBufObs (fst r) [] [], snd r)
+  | BopAppendNumHex ok num len => do r <- buf_append_num_hex ok b num len; Ok (mkBufObs (fst r) [] [], snd r)
+  | BopParseBinstr ok1 ok2 rl want validate =>
+    do r <- buf_parse_dns_binstr_int ok1 ok2 b rl want validate;
+    match snd r with
+    | None => Ok (mkBufObs (fst (fst r)) [] [], snd (fst r))
+    | Some bytes => Ok (mkBufObs (fst (fst r)) [buf_zlen bytes - 1] [bytes], snd (fst r))
+    end
+  | BopSplitFailAt n delims flags max_sections =>
+    do r <- buf_split_fail_at n b delims flags max_sections;
+    Ok (mkBufObs (fst (fst r)) [buf_zlen (snd r)] (snd r), snd (fst r))
   end.
 
 (* what the driver prints after every operation: ares_buf_len, ares_buf_get_position,
@@ -973,6 +1160,57 @@ Definition bufs_finish_alts (str : bool) (s : bspec) : list (bobs * bspec) :=
     (mkBufObs 1 [] [if str then out ++ [0] else out], bufs_create)
     :: (if bufs_nothing_held s then [(mkBufObs 0 [] [], s)] else []).
 
+(* ---- numbers in ASCII: the plain specification (digits by div / mod) ---- *)
+(* the k least significant digits of v in the given base, most significant first *)
+Fixpoint bufs_num_digits (base : Z) (k : nat) (v : Z) : list Z :=
+  match k with O => [] | S k' => bufs_num_digits base k' (v / base) ++ [v mod base] end.
+(* number of digits of v (at least 1) *)
+Fixpoint bufs_num_width (fuel : nat) (base v : Z) : Z :=
+  match fuel with
+  | O => 1
+  | S f => if v <? base then 1 else 1 + bufs_num_width f base (v / base)
+  end.
+Definition bufs_dec_char (d : Z) : Z := 48 + d.                         (* '0' .. '9' *)
+Definition bufs_hex_char (d : Z) : Z := if d <? 10 then 48 + d else 55 + d.   (* '0' .. '9', 'A' .. 'F' *)
+(* what ares_buf_append_num_dec / _hex append: len = 0 means the natural width; otherwise exactly
+   len characters: the number zero-padded on the left, or - when it has more digits - its len
+   LEAST significant digits (the leading ones are cut off) *)
+Definition bufs_num_bytes (base : Z) (chr : Z -> Z) (num len : Z) : list Z :=
+  let len := if len =? 0 then bufs_num_width 64 base num else len in
+  map chr (bufs_num_digits base (Z.to_nat len) num).
+
+(* ---- one length-prefixed character-string ---- *)
+Definition bufs_parse_binstr (ok1 ok2 : bool) (s : bspec) (rl : Z) (want validate : bool)
+  : Z * bspec * option (list Z) :=
+  if rl =? 0 then (ARES_EBADRESP, s, None)
+  else if negb ok1 then (ARES_ENOMEM, s, None)
+  else match bs_post s with
+       | [] => (ARES_EBADRESP, s, None)
+       | len :: rest =>
+         let s1 := bufs_advance s 1 in                   (* the length byte stays consumed on failure *)
+         if (len >? rl - 1) || (buf_zlen rest <? len) then (ARES_EBADRESP, s1, None)
+         else if validate && negb (forallb buf_isprint (buf_take len rest)) then (ARES_EBADSTR, s1, None)
+         else if want && negb ok2 then (ARES_ENOMEM, s1, None)
+         else (ARES_SUCCESS, bufs_advance s1 len, if want then Some (buf_take len rest ++ [0]) else None)
+       end.
+
+(* ---- split with a refused allocation in the middle: either the refused request was never made
+   (the split needs fewer requests: full success) or ARES_ENOMEM without pieces; no byte is
+   lost, the cursor stopped somewhere inside the input with the tag at or before it.  WHICH
+   section it stopped at is a matter of the model (theorem buf_split_okp), not of the queue. *)
+Definition bufs_zseq (from : Z) (n : nat) : list Z := map (fun i => from + Z.of_nat i) (seq 0 n).
+Definition bufs_split_fail_alts (n : Z) (s : bspec) (delims : list Z) (flags max_sections : Z)
+  : list (bobs * bspec) :=
+  if (buf_zlen delims =? 0) || (n =? 0) || (bufs_len s =? 0) then bufs_split_alts (negb (n =? 0)) s delims flags max_sections
+  else
+    bufs_split_alts true s delims flags max_sections ++
+    flat_map (fun p =>
+                let pre' := bs_pre s ++ buf_take p (bs_post s) in
+                let post' := buf_drop p (bs_post s) in
+                map (fun t => (mkBufObs ARES_ENOMEM [0] [], mkBufSpec pre' post' (Some (bufs_position s + t)) (bs_const s)))
+                    (bufs_zseq 0 (S (Z.to_nat p))))
+             (bufs_zseq 0 (S (Z.to_nat (bufs_len s)))).
+
 Definition bufs_alts (s : bspec) (op : buf_op) : list (bobs * bspec) :=
   let st1 (r : Z * bspec) := (mkBufObs (fst r) [] [], snd r) in
   match op with
@@ -1034,6 +1272,15 @@ Definition bufs_alts (s : bspec) (op : buf_op) : list (bobs * bspec) :=
   | BopNewConst ok bytes =>
     [if ok && negb (buf_zlen bytes =? 0) then (mkBufObs 1 [] [], bufs_create_const bytes)
      else (mkBufObs 0 [] [], s)]
+  | BopAppendNumDec ok num len => map st1 (bufs_append_alts s (bufs_num_bytes 10 bufs_dec_char num len))
+  | BopAppendNumHex ok num len => map st1 (bufs_append_alts s (bufs_num_bytes 16 bufs_hex_char num len))
+  | BopParseBinstr ok1 ok2 rl want validate =>
+    let r := bufs_parse_binstr ok1 ok2 s rl want validate in
+    [(match snd r with
+      | None => mkBufObs (fst (fst r)) [] []
+      | Some bytes => mkBufObs (fst (fst r)) [buf_zlen bytes - 1] [bytes]
+      end, snd (fst r))]
+  | BopSplitFailAt n delims flags max_sections => bufs_split_fail_alts n s delims flags max_sections
   end.
 
 (* the caller contract of an operation in an abstract state: what the C API documents (or
